@@ -15,13 +15,16 @@ from harness import xsession
 
 def setup(wd):
     XSH = xsession.load()
-    state = {"log": [], "rc": {}, "out": {}}
+    state = {"log": [], "rc": {}, "out": {}, "inner": {}}
 
     def mk(name):
         def alias(args, stdin=None, stdout=None, stderr=None):
             state["log"].append(name)
             if state["out"].get(name):
                 print("o" + name, file=stdout)
+            if state["inner"].get(name):
+                # the alias runs a (successful) command of its own before it returns its code
+                XSH.subproc_captured_stdout(["sh", "-c", "exit 0"])
             return state["rc"].get(name, 0)
 
         return alias
@@ -77,11 +80,18 @@ def run_e2e(ctx, scn):
     log = os.path.join(wd, "e2e.log")
     if os.path.exists(log):
         os.remove(log)
-    chain = render(cfg, real=True)
-    src = (f"$XONSH_SUBPROC_RAISE_ERROR = {bool(cfg['raise'])}\n$XONSH_SUBPROC_CMD_RAISE_ERROR = {bool(cfg['cmdraise'])}\n"
+    big = scn["e2e"].endswith("-bigrc")
+    chain = render(cfg, real=not big)
+    prelude = ""
+    if big:
+        # callable aliases returning raw wait statuses (256 * code), logging to the file
+        prelude = "import os\n" + "".join(
+            f"def _c{i}(args, stdin=None, stdout=None):\n    open(os.environ['VERIF_LOG'], 'a').write('r{i}\\n')\n" + ("    print('o', file=stdout)\n" if l["out"] else "") + f"    return {256 * l['rc']}\naliases['c{i}'] = _c{i}\n"
+            for i, l in enumerate(cfg["leaves"]))
+    src = prelude + (f"$XONSH_SUBPROC_RAISE_ERROR = {bool(cfg['raise'])}\n$XONSH_SUBPROC_CMD_RAISE_ERROR = {bool(cfg['cmdraise'])}\n"
            f"$XONSH_SHOW_TRACEBACK = False\n{chain}\nsh -c 'echo marker >> $VERIF_LOG'\n")
     env = dict(os.environ, VERIF_LOG=log, PYTHONPATH="/repo", XONSH_SHOW_TRACEBACK="0")
-    if scn["e2e"] == "script":
+    if scn["e2e"].startswith("script"):
         path = os.path.join(wd, "e2e.xsh")
         with open(path, "w") as fh:
             fh.write(src)
@@ -102,11 +112,15 @@ def run(ctx, scn):
     XSH, state = ctx["XSH"], ctx["state"]
     cfg = scn["cfg"]
     env = XSH.env
-    env["XONSH_SUBPROC_RAISE_ERROR"] = bool(cfg["raise"])
-    env["XONSH_SUBPROC_CMD_RAISE_ERROR"] = bool(cfg["cmdraise"])
+    late = bool(scn.get("late"))
+    # late: the environment holds the opposite values while the source is compiled; the source sets
+    # the flags itself before the chain runs
+    env["XONSH_SUBPROC_RAISE_ERROR"] = bool(cfg["raise"]) != late
+    env["XONSH_SUBPROC_CMD_RAISE_ERROR"] = bool(cfg["cmdraise"]) != late
     state["log"].clear()
     state["rc"] = {f"c{i}": leaf["rc"] for i, leaf in enumerate(cfg["leaves"])}
     state["out"] = {f"c{i}": leaf["out"] for i, leaf in enumerate(cfg["leaves"])}
+    state["inner"] = {f"c{i}": bool(leaf.get("inner")) for i, leaf in enumerate(cfg["leaves"])}
     # the second stage of a piped leaf: its code is the leaf's code, the first stage gets the opposite
     for i, leaf in enumerate(cfg["leaves"]):
         if leaf.get("pipe"):
@@ -114,6 +128,8 @@ def run(ctx, scn):
             state["rc"][f"c{i}"] = 1 - leaf["rc"]
             state["out"]["cp"] = leaf["out"]
     src = render(cfg) + "\n__marker.append(1)\n"
+    if late:
+        src = f"$XONSH_SUBPROC_RAISE_ERROR = {bool(cfg['raise'])}\n$XONSH_SUBPROC_CMD_RAISE_ERROR = {bool(cfg['cmdraise'])}\n" + src
     g = {"__marker": []}
     exc = None
     buf = io.StringIO()
@@ -141,5 +157,5 @@ def run(ctx, scn):
     while time.time() - t0 < 5 and any(type(t).__name__ == "ProcProxyThread" and t.is_alive() for t in threading.enumerate()):
         time.sleep(0.002)
     ran = [int(x[1]) + 1 for x in state["log"] if x != "cp"]
-    obs = {"ran": ran, "raised": exc is not None, "exc": exc["type"] if exc else "", "marker": bool(g["__marker"]), "src": src.splitlines()[0]}
+    obs = {"ran": ran, "raised": exc is not None, "exc": exc["type"] if exc else "", "marker": bool(g["__marker"]), "src": ("[late flags] " if late else "") + src.splitlines()[2 if late else 0]}
     return {"cfg": cfg, "steps": [{"cmd": "run", "cfg": cfg, "obs": obs}]}
